@@ -138,6 +138,40 @@ def cli_part(check, cases):
                 return
 
 
+def entry_points_part(check):
+    """the ways a source tree can be named on the command line: relative to the working directory (`src`, `.`, `./src`, `src/`,
+    `../proj/src`), a single file, several roots (overlapping, repeated), a path that does not exist, an empty directory - each in
+    single- and multi-file mode.  Output or a diagnostic, exit status 0 or 1, no panic, within 20 s"""
+    spellings = [["src"], ["."], ["./src"], ["src/"], ["../proj/src"], ["src/lib.rs"], ["src", "../other/src"], ["src", "src"],
+                 [".", "src"], ["nope"], ["empty_dir"], ["src/../src"], ["../other"], ["src/nested/src"]]
+    for idx, inputs in enumerate(spellings):
+        for multi in (False, True):
+            lang = LANGS[(idx + multi) % 6]
+            with Scratch() as sc:
+                sc.write("proj/src/lib.rs", "#[typeshare]\npub struct Root { pub a: u8 }\n")
+                sc.write("proj/src/nested/src/inner.rs", "#[typeshare]\npub struct Inner { pub b: u8 }\n")
+                sc.write("other/src/lib.rs", "#[typeshare]\npub struct Other { pub c: u8 }\n")
+                os.makedirs(sc.path("proj/empty_dir"))
+                out = ["-d", sc.path("outdir")] if multi else ["-o", sc.path("out." + EXT[lang])]
+                r = run_cli(["--lang", lang] + out + lang_args(lang) + inputs, cwd=sc.path("proj"), timeout=20)
+            check.saw(("entry-point", tuple(inputs), multi, lang), nontrivial=True)
+            check.count("entry-point-rc=%s" % ("timeout" if r["timed_out"] else r["rc"]))
+            problem = None
+            if r["timed_out"]:
+                problem = "did not terminate within 20 s" + (" after: " + [l for l in r["err"].splitlines() if "panicked at" in l][0]
+                                                               if "panicked at" in r["err"] else "")
+            elif "panicked at" in r["err"]:
+                problem = "panicked: " + [l for l in r["err"].splitlines() if "panicked at" in l][0]
+            elif r["rc"] not in (0, 1, 2):
+                problem = "exit status %s" % r["rc"]
+            if problem:
+                check.violation("typeshare --lang %s %s %s (working directory: the crate): %s" % (lang, "-d out" if multi else "-o out", " ".join(inputs), problem),
+                                case={"inputs": inputs, "lang": lang, "multi_file": multi, "cwd": "proj",
+                                      "tree": ["proj/src/lib.rs", "proj/src/nested/src/inner.rs", "other/src/lib.rs", "proj/empty_dir/"]},
+                                impl={"rc": r["rc"], "stderr": r["err"][-2000:]}, failing_input=True)
+                return
+
+
 def big_tree_part(check):
     """source trees much larger than the walker's bounded result channel (100): every file yields a result; with and
     without item errors; single- and multi-file mode; several walker thread counts"""
@@ -251,6 +285,9 @@ def run(check):
         odd_types_part(check)
     if not check.violations:
         big_tree_part(check)
-    check.rule += ("; trees of 130-257 (thorough 513) annotated files in 7 crates - more results than the walker's bounded channel "
+    if not check.violations:
+        entry_points_part(check)
+    check.rule += ("; 14 spellings of the input roots (relative, single file, several / overlapping / missing / empty roots) x "
+                   "{-o, -d} from inside the crate directory; trees of 130-257 (thorough 513) annotated files in 7 crates - more results than the walker's bounded channel "
                    "holds - clean and with one unsupported item in the middle, single- and multi-file mode, 1/2/8/default walker "
                    "threads: termination within 60 s, exit status, the offending file named, no definition missing")
